@@ -2,15 +2,66 @@
    the framework of GenInv.v: C11, C16 and C17 for every such schema and every layout. *)
 From Coq Require Import List NArith ZArith Bool Arith Lia.
 Require Import Bebop.front.Tok Bebop.front.Parse Bebop.front.Fmt Bebop.front.TokInv Bebop.front.LexInv Bebop.front.ParseInv Bebop.front.FmtInv Bebop.front.MsgInv.
-Require Import Bebop.front.GenInv Bebop.front.Items Bebop.front.TyInv Bebop.front.TyMsg Bebop.front.TyItems Bebop.front.TyUnion Bebop.front.TyUnionItem.
+Require Import Bebop.front.GenInv Bebop.front.Items Bebop.front.TyInv Bebop.front.TyMsg Bebop.front.TyItems Bebop.front.TyUnion Bebop.front.TyUnionItem Bebop.front.TyOpcode Bebop.front.TyEnum Bebop.front.TyDep Bebop.front.TyDoc Bebop.front.TyDec Bebop.front.TyImport.
 Import ListNotations.
+
+(* a definition that may carry doc comment lines and opcode lines in front of it, in any number and order *)
+Inductive ddef :=
+| BStruct (nm : ident) (fl : list tfdef)
+| BRoStruct (nm : ident) (fl : list tfdef)
+| BMessage (nm : ident) (fl : list tmfdef)
+| BDMessage (nm : ident) (fl : list ldfield)
+| BUnion (nm : ident) (bl : list lub)
+| BEnum (nm tname : ident) (uns : bool) (bits : N) (ml : list edef)
+| BUEnum (nm : ident) (ml : list edef).
+Definition ddef_ok (b : ddef) : Prop :=
+  match b with
+  | BStruct nm fl | BRoStruct nm fl => ident_ok nm /\ Forall tfdef_ok fl
+  | BMessage nm fl => ident_ok nm /\ Forall tmfdef_ok fl /\ tmfs_ok [] (map btm fl)
+  | BDMessage nm fl => ident_ok nm /\ Forall ldfield_ok fl /\ dmfs_ok [] (map bdf fl)
+  | BUnion nm bl => ident_ok nm /\ Forall lub_ok bl /\ ubs_ok [] (map bub bl) /\ bl <> []
+  | BEnum nm tname uns bits ml => ident_ok nm /\ ident_ok tname /\ base_ok (ibytes tname) uns bits /\
+                                  Forall (fun m => ident_ok (fst m) /\ idx_ok (snd m)) ml /\ tems_ok uns bits (map bem ml)
+  | BUEnum nm ml => ident_ok nm /\ Forall (fun m => ident_ok (fst m) /\ idx_ok (snd m)) ml /\ ems_ok (map bem ml)
+  end.
+Definition ddef_base (b : ddef) : gbase :=
+  match b with
+  | BStruct nm fl => b_struct nm fl | BRoStruct nm fl => b_rostruct nm fl | BMessage nm fl => b_message nm fl
+  | BDMessage nm fl => b_dmessage nm fl | BUnion nm bl => b_union nm bl | BEnum nm tname uns bits ml => b_enum nm tname uns ml
+  | BUEnum nm ml => b_uenum nm ml
+  end.
+Definition ddef_x (b : ddef) : xitem :=
+  match b with
+  | BStruct nm fl => st_x nm fl | BRoStruct nm fl => rt_x nm fl | BMessage nm fl => mt_x nm fl
+  | BDMessage nm fl => md_x nm fl | BUnion nm bl => u_x nm bl | BEnum nm tname uns bits ml => te_x nm tname ml
+  | BUEnum nm ml => e_x nm ml
+  end.
+Lemma ddef_base_ok b : ddef_ok b -> gbase_ok (ddef_base b) (ddef_x b).
+Proof.
+  destruct b as [nm fl|nm fl|nm fl|nm fl|nm bl|nm tname uns bits ml|nm ml]; cbn [ddef_ok ddef_base ddef_x].
+  - intros [A B]. now apply b_struct_ok.
+  - intros [A B]. now apply b_rostruct_ok.
+  - intros (A & B & C). now apply b_message_ok.
+  - intros (A & B & C). now apply b_dmessage_ok.
+  - intros (A & B & C & D). now apply b_union_ok.
+  - intros (A & B & C & D & E). now apply (b_enum_ok nm tname uns bits ml).
+  - intros (A & B & C). now apply b_uenum_ok.
+Qed.
 
 Inductive sdefn :=
 | SStruct (nm : ident) (fl : list tfdef) (blank : nat)
 | SReadonly (nm : ident) (fl : list tfdef) (blank : nat)
 | SMessage (nm : ident) (fl : list tmfdef) (blank : nat)
 | SEnum (nm : ident) (ml : list edef) (blank : nat)
-| SUnion (nm : ident) (bl : list lub) (blank : nat).
+| SUnion (nm : ident) (bl : list lub) (blank : nat)
+| SOpStruct (op : lol) (nm : ident) (fl : list tfdef) (blank : nat)
+| SOpMessage (op : lol) (nm : ident) (fl : list tmfdef) (blank : nat)
+| STEnum (nm tname : ident) (uns : bool) (bits : N) (ml : list edef) (blank : nat)
+| SDMessage (nm : ident) (fl : list ldfield) (blank : nat)
+| SDocStruct (cs : list bytes) (nm : ident) (fl : list tfdef) (blank : nat)
+| SDocMessage (cs : list bytes) (nm : ident) (fl : list tmfdef) (blank : nat)
+| SDec (P : list lprefix) (b : ddef) (blank : nat)
+| SImport (path : bytes) (blank : nat).
 
 Definition sdefn_ok (d : sdefn) : Prop :=
   match d with
@@ -18,6 +69,15 @@ Definition sdefn_ok (d : sdefn) : Prop :=
   | SMessage nm fl _ => ident_ok nm /\ Forall tmfdef_ok fl /\ tmfs_ok [] (map btm fl)
   | SEnum nm ml _ => ident_ok nm /\ Forall (fun m => ident_ok (fst m) /\ idx_ok (snd m)) ml /\ ems_ok (map bem ml)
   | SUnion nm bl _ => ident_ok nm /\ Forall lub_ok bl /\ ubs_ok [] (map bub bl) /\ bl <> []
+  | SOpStruct op nm fl _ => lol_ok op /\ ident_ok nm /\ Forall tfdef_ok fl
+  | SOpMessage op nm fl _ => lol_ok op /\ ident_ok nm /\ Forall tmfdef_ok fl /\ tmfs_ok [] (map btm fl)
+  | STEnum nm tname uns bits ml _ => ident_ok nm /\ ident_ok tname /\ base_ok (ibytes tname) uns bits /\
+                                     Forall (fun m => ident_ok (fst m) /\ idx_ok (snd m)) ml /\ tems_ok uns bits (map bem ml)
+  | SDMessage nm fl _ => ident_ok nm /\ Forall ldfield_ok fl /\ dmfs_ok [] (map bdf fl)
+  | SDocStruct cs nm fl _ => cs <> [] /\ Forall cbody_ok cs /\ ident_ok nm /\ Forall tfdef_ok fl
+  | SDocMessage cs nm fl _ => cs <> [] /\ Forall cbody_ok cs /\ ident_ok nm /\ Forall tmfdef_ok fl /\ tmfs_ok [] (map btm fl)
+  | SDec P b _ => Forall lprefix_ok P /\ ddef_ok b /\ (gb_opc0 (ddef_base b) = true -> popc (map bp P) 0%N = 0%N)
+  | SImport path _ => Forall (fun x => dplain x = true) path
   end.
 Definition xel_of (d : sdefn) : xel :=
   match d with
@@ -26,15 +86,31 @@ Definition xel_of (d : sdefn) : xel :=
   | SMessage nm fl k => (mt_item nm fl, mt_x nm fl, k)
   | SEnum nm ml k => (e_item nm ml, e_x nm ml, k)
   | SUnion nm bl k => (u_item nm bl, u_x nm bl, k)
+  | SOpStruct op nm fl k => (os_item op nm fl, os_x op nm fl, k)
+  | SOpMessage op nm fl k => (om_item op nm fl, om_x op nm fl, k)
+  | STEnum nm tname uns bits ml k => (te_item nm tname uns ml, te_x nm tname ml, k)
+  | SDMessage nm fl k => (md_item nm fl, md_x nm fl, k)
+  | SDocStruct cs nm fl k => (cs_item cs nm fl, cs_x cs nm fl, k)
+  | SDocMessage cs nm fl k => (cm_item cs nm fl, cm_x cs nm fl, k)
+  | SDec P b k => (dec_item (map bp P) (ddef_base b), dec_x P (ddef_x b), k)
+  | SImport path k => (i_item path, i_x path, k)
   end.
 Lemma xel_of_ok d : sdefn_ok d -> xel_ok (xel_of d).
 Proof.
-  destruct d as [nm fl k|nm fl k|nm fl k|nm ml k|nm bl k]; cbn [sdefn_ok xel_of xel_ok].
+  destruct d as [nm fl k|nm fl k|nm fl k|nm ml k|nm bl k|op nm fl k|op nm fl k|nm tname uns bits ml k|nm fl k|cs nm fl k|cs nm fl k|P b k|path k]; cbn [sdefn_ok xel_of xel_ok].
   - intros [A B]. now apply st_item_ok.
   - intros [A B]. now apply rt_item_ok.
   - intros (A & B & C). now apply mt_item_ok.
   - intros (A & B & C). now apply e_item_ok.
   - intros (A & B & C & D). now apply u_item_ok.
+  - intros (A & B & C). now apply os_item_ok.
+  - intros (A & B & C & D). now apply om_item_ok.
+  - intros (A & B & C & D & E). now apply (te_item_ok nm tname uns bits ml).
+  - intros (A & B & C). now apply md_item_ok.
+  - intros (A & B & C & D). now apply cs_item_ok.
+  - intros (A & B & C & D & E). now apply cm_item_ok.
+  - intros (A & B & C). apply dec_item_ok; [now apply ddef_base_ok|exact A|exact C].
+  - intros A. now apply i_item_ok.
 Qed.
 
 (* the lexemes of the text, the File it states, its canonical text *)
@@ -53,21 +129,51 @@ Proof.
 Qed.
 
 (* what the File is, written out: each kind of definition in source order *)
+(* the comment and the opcode the prefix lines of a decorated definition give it *)
+Definition dec_cmt (P : list lprefix) : bytes := join_nl (pcm (map bp P) []).
+Definition dec_opc (P : list lprefix) : N := popc (map bp P) 0%N.
 Definition structs_of (d : sdefn) : list struct_ :=
   match d with
   | SStruct nm fl _ => [tstruct_of (ibytes nm) (map btf fl)]
   | SReadonly nm fl _ => [tstruct_of_ro (ibytes nm) (map btf fl)]
+  | SOpStruct op nm fl _ => [tstruct_of_opc (ol_val (bol op)) (ibytes nm) (map btf fl)]
+  | SDocStruct cs nm fl _ => [tstruct_of_cm (join_nl cs) (ibytes nm) (map btf fl)]
+  | SDec P (BStruct nm fl) _ => [gstruct_of (dec_cmt P) (dec_opc P) false (ibytes nm) (map btf fl)]
+  | SDec P (BRoStruct nm fl) _ => [gstruct_of (dec_cmt P) (dec_opc P) true (ibytes nm) (map btf fl)]
   | _ => []
   end.
-Definition messages_of (d : sdefn) : list message := match d with SMessage nm fl _ => [tmessage_of (ibytes nm) (map btm fl)] | _ => [] end.
-Definition enums_of (d : sdefn) : list enum_ := match d with SEnum nm ml _ => [enum_of (ibytes nm) (map bem ml)] | _ => [] end.
-Definition unions_of (d : sdefn) : list union_ := match d with SUnion nm bl _ => [union_of (ibytes nm) (map bub bl)] | _ => [] end.
+Definition messages_of (d : sdefn) : list message :=
+  match d with
+  | SMessage nm fl _ => [tmessage_of (ibytes nm) (map btm fl)]
+  | SOpMessage op nm fl _ => [tmessage_of_opc (ol_val (bol op)) (ibytes nm) (map btm fl)]
+  | SDMessage nm fl _ => [dmessage_of (ibytes nm) (map bdf fl)]
+  | SDocMessage cs nm fl _ => [tmessage_of_cm (join_nl cs) (ibytes nm) (map btm fl)]
+  | SDec P (BMessage nm fl) _ => [gmessage_of (dec_cmt P) (dec_opc P) (ibytes nm) (map btm fl)]
+  | SDec P (BDMessage nm fl) _ => [gdmessage_of (dec_cmt P) (dec_opc P) (ibytes nm) (map bdf fl)]
+  | _ => []
+  end.
+Definition enums_of (d : sdefn) : list enum_ :=
+  match d with
+  | SEnum nm ml _ => [enum_of (ibytes nm) (map bem ml)]
+  | STEnum nm tname uns bits ml _ => [tenum_of (ibytes nm) (ibytes tname) uns (map bem ml)]
+  | SDec P (BEnum nm tname uns bits ml) _ => [genum_of (dec_cmt P) (ibytes nm) (ibytes tname) uns (map bem ml)]
+  | SDec P (BUEnum nm ml) _ => [guenum_of (dec_cmt P) (ibytes nm) (map bem ml)]
+  | _ => []
+  end.
+Definition unions_of (d : sdefn) : list union_ :=
+  match d with
+  | SUnion nm bl _ => [union_of (ibytes nm) (map bub bl)]
+  | SDec P (BUnion nm bl) _ => [gunion_of (dec_cmt P) (dec_opc P) (ibytes nm) (map bub bl)]
+  | _ => []
+  end.
+
+Definition imports_of (d : sdefn) : list bytes := match d with SImport path _ => [path] | _ => [] end.
 
 Lemma schema_file_spec dl :
   structs (schema_file dl) = flat_map structs_of dl /\
   messages (schema_file dl) = flat_map messages_of dl /\
   enums (schema_file dl) = flat_map enums_of dl /\
-  unions (schema_file dl) = flat_map unions_of dl /\ consts (schema_file dl) = [] /\ imports (schema_file dl) = [] /\ gopackage (schema_file dl) = [].
+  unions (schema_file dl) = flat_map unions_of dl /\ consts (schema_file dl) = [] /\ imports (schema_file dl) = flat_map imports_of dl /\ gopackage (schema_file dl) = [].
 Proof.
   unfold schema_file.
   assert (G : forall dl f,
@@ -75,11 +181,11 @@ Proof.
     messages (gfile (map xe_el (map xel_of dl)) f) = messages f ++ flat_map messages_of dl /\
     enums (gfile (map xe_el (map xel_of dl)) f) = enums f ++ flat_map enums_of dl /\
     unions (gfile (map xe_el (map xel_of dl)) f) = unions f ++ flat_map unions_of dl /\ consts (gfile (map xe_el (map xel_of dl)) f) = consts f /\
-    imports (gfile (map xe_el (map xel_of dl)) f) = imports f /\ gopackage (gfile (map xe_el (map xel_of dl)) f) = gopackage f).
+    imports (gfile (map xe_el (map xel_of dl)) f) = imports f ++ flat_map imports_of dl /\ gopackage (gfile (map xe_el (map xel_of dl)) f) = gopackage f).
   { clear. induction dl as [|d dl IH]; intros f; [cbn; rewrite !app_nil_r; repeat split|].
     cbn [map gfile fold_left flat_map]. destruct (IH (it_upd (fst (xe_el (xel_of d))) f)) as (A & B & C & D & E & F & G0).
     unfold gfile in *. rewrite A, B, C, D, E, F, G0.
-    destruct d as [nm fl k|nm fl k|nm fl k|nm ml k|nm bl k]; cbn [xel_of xe_el fst snd st_item rt_item mt_item e_item u_item it_upd add_struct add_message add_enum add_union structs messages enums unions consts imports gopackage app structs_of messages_of enums_of unions_of];
+    destruct d as [nm fl k|nm fl k|nm fl k|nm ml k|nm bl k|op nm fl k|op nm fl k|nm tname uns bits ml k|nm fl k|cs nm fl k|cs nm fl k|P [nm fl|nm fl|nm fl|nm fl|nm bl|nm tname uns bits ml|nm ml] k|path k]; cbn [xel_of xe_el fst snd st_item rt_item mt_item e_item u_item os_item om_item te_item md_item cs_item cm_item dec_item ddef_base b_struct b_rostruct b_message b_dmessage b_union b_enum b_uenum gb_upd i_item add_import imports_of it_upd add_struct add_message add_enum add_union structs messages enums unions consts imports gopackage app structs_of messages_of enums_of unions_of];
       rewrite <- ?app_assoc, ?app_nil_r; repeat split; reflexivity. }
   destruct (G dl file0) as (A & B & C & D & E & F & G0). cbn [file0 structs messages enums unions consts imports gopackage app] in *. repeat split; assumption.
 Qed.
